@@ -119,7 +119,7 @@ def coq_make(targets, timeout=1500):
     generated Makefile, under a lock so concurrent checks do not race."""
     with Lock("coq"):
         coq_makefile()
-        rc, out = sh(["make", "-j%d" % NPROC] + targets, cwd=COQ, timeout=timeout)
+    rc, out = sh(["make", "-j%d" % NPROC] + targets, cwd=COQ, timeout=timeout)
     return rc, out
 
 
@@ -178,11 +178,27 @@ def coq_assumptions(relpath, timeout=600):
     return rc, out, blocks
 
 
-def audit_sources():
-    """grep the whole development for anything that declares an axiom or
-    switches off a kernel check."""
+def dep_closure(relpaths):
+    """The .v files (relative to coq/) that the given files transitively Require
+    from this development."""
+    seen, todo = [], list(relpaths)
+    while todo:
+        f = todo.pop()
+        if f in seen or not os.path.exists(os.path.join(COQ, f)):
+            continue
+        seen.append(f)
+        txt = strip_comments(open(os.path.join(COQ, f)).read())
+        for m in re.finditer(r"From\s+DustDDS\s+Require\s+(?:Import\s+|Export\s+)?([A-Za-z0-9_.\s]+?)\.(?:\s|$)", txt):
+            for name in m.group(1).split():
+                todo.append("theories/" + name.replace(".", "/") + ".v")
+    return sorted(seen)
+
+
+def audit_sources(files=None):
+    """grep the development (the dependency closure of the property's files) for
+    anything that declares an axiom or switches off a kernel check."""
     bad = []
-    for f in coq_files():
+    for f in (files if files is not None else coq_files()):
         txt = strip_comments(open(os.path.join(COQ, f)).read())
         # Section-local Variables/Hypotheses are allowed only inside a Section
         depth = 0
@@ -243,7 +259,9 @@ def prove(ctx, mod):
     if missing:
         ok = False
         ctx.broken.append("no Print Assumptions for: " + ", ".join(missing))
-    bad = audit_sources()
+    closure = dep_closure([rel] + [e[:-1] for e in extra])
+    ctx.cov["audited_files"] = closure
+    bad = audit_sources(closure)
     if bad:
         ok = False
         ctx.broken.append("forbidden vernacular: " + "; ".join(bad[:5]))
@@ -254,17 +272,17 @@ def prove(ctx, mod):
 
 # ------------------------------------------------------------------------ cargo
 
-def cargo_build(ctx, release=False):
+def cargo_build(ctx, release=False, bin=None):
+    """Builds harness/src/bin/<bin>.rs against /repo's current working tree."""
     env = {"RUSTFLAGS": "--cfg " + GUARD}
-    lock = os.path.join(HARNESS, "Cargo.lock")
-    # the lock file follows /repo's (same registry, offline)
-    cmd = ["cargo", "build", "--offline", "--quiet"] + (["--release"] if release else [])
+    bin = bin or ctx.pid.lower()
+    cmd = ["cargo", "build", "--offline", "--quiet", "--bin", bin] + (["--release"] if release else [])
     with Lock("cargo"):
         rc, out = sh(cmd, cwd=HARNESS, timeout=3000, env=env)
     if rc != 0:
         ctx.log.append(out[-4000:])
         return None, out
-    return os.path.join(CACHE, "target", "release" if release else "debug", "vh"), out
+    return os.path.join(CACHE, "target", "release" if release else "debug", bin), out
 
 
 def run_harness(binary, sub, lines, shards=NPROC, timeout=900, extra_args=()):
@@ -279,7 +297,7 @@ def run_harness(binary, sub, lines, shards=NPROC, timeout=900, extra_args=()):
     procs = []
     for ch in chunks:
         inp = "\n".join(lines[i] for i in ch) + "\n"
-        p = subprocess.Popen([binary, sub] + list(extra_args), stdin=subprocess.PIPE, stdout=subprocess.PIPE,
+        p = subprocess.Popen([binary] + list(extra_args), stdin=subprocess.PIPE, stdout=subprocess.PIPE,
                              stderr=subprocess.DEVNULL, text=True)
         procs.append((p, ch, inp))
     # write inputs in threads to avoid pipe deadlock
@@ -318,7 +336,7 @@ def run_harness(binary, sub, lines, shards=NPROC, timeout=900, extra_args=()):
                     results[i] = ol[j]
                     continue
                 try:
-                    q = subprocess.run([binary, sub] + list(extra_args), input=lines[i] + "\n", stdout=subprocess.PIPE,
+                    q = subprocess.run([binary] + list(extra_args), input=lines[i] + "\n", stdout=subprocess.PIPE,
                                        stderr=subprocess.DEVNULL, text=True, timeout=60)
                     l = [x for x in q.stdout.splitlines() if x.strip()]
                     if q.returncode == 0 and l:
@@ -533,7 +551,7 @@ def correspond(ctx, mod, binary, cases, label="main", shrink=True):
 
 def run_standard(ctx, mod):
     proved = prove(ctx, mod)
-    binary, out = cargo_build(ctx)
+    binary, out = cargo_build(ctx, bin=getattr(mod, 'HARNESS', None))
     if binary is None:
         ctx.broken.append("harness does not build against the current /repo tree (correspondence broken): "
                           + out[-600:])
@@ -595,7 +613,7 @@ def replay(ctx, mod, path):
     if line is None:
         ctx.say("replay file names no concrete case: " + json.dumps(payload.get("no_longer_checks")))
         return 1
-    binary, out = cargo_build(ctx)
+    binary, out = cargo_build(ctx, bin=getattr(mod, 'HARNESS', None))
     if binary is None:
         ctx.say("harness does not build")
         return 1
